@@ -160,6 +160,17 @@ fn float_leg(g: &Grammar, tier: Tier) -> Acc {
             }
         }
     }
+    // the whole exponent range, into the subnormals and up to the last finite decade (beyond it the
+    // literal overflows, which is left unspecified)
+    for e in -330..=308i32 {
+        for m in ["1", "2", "5", "9", "1.5", "9.999999999999999", "0.0001", "17.25"] {
+            let t = format!("{m}e{e}");
+            if t.parse::<f64>().map(|x| x.is_finite()).unwrap_or(false) {
+                lits.push(format!("f{t}"));
+                lits.push(format!("f-{m}E{e:+}"));
+            }
+        }
+    }
     // plain spellings
     for m in 0..1000usize {
         lits.push(format!("f{m}"));
